@@ -29,6 +29,7 @@ MIN = {'quick': {'distinct': 1500,
                             'rule: listed child not leftmost': 1000,
                             'invalid configuration rejected': 20,
                             'same production under both presets': 500,
+                            'rules: random tree over all rule categories': 1000,
                             'negra: tree already carries head marks': 300,
                             'negra after rule-based marking': 100,
                             'rules: tree already carries head marks': 500}},
@@ -387,6 +388,30 @@ def shard(ctx):
         for preset in order + order[:1]:
             run_rules(ctx, dual[preset], preset, rng)
         ctx.stratum('same production under both presets')
+    for i in ctx.indices(ctx.pick(1500, 60000)):
+        rng = ctx.rng('generic', i)
+        preset = rng.choice(['negra', 'ptb'])
+        cats = sorted(c.upper() for c in tabs[preset]) + ['XX', 'S', 'NP']
+        pools = gen.Pools(cats=cats, pos=[c.upper() for c in
+                                           sorted(set(w for s in
+                                                      tabs[preset].values()
+                                                      for w in s))][:40]
+                          + ['NN', 'XY'])
+        spec = gen.tree(rng, rng.randint(1, 14), pools,
+                        max_arity=rng.choice([2, 3, 5]),
+                        p_unary=rng.choice([0, 0.2]),
+                        moves=rng.choice([0, 0, 2]))
+        Cur.ctx = ctx
+        Cur.case = {'kind': 'generic', 'spec': spec, 'preset': preset}
+        Cur.expect_rule_heads = None
+        live = common.live_tree(ctx, spec, rng)
+        try:
+            with common.captured():
+                ctx.R.transform.mark_heads_by_rules(live,
+                                                    mark_heads_preset=preset)
+        except Exception:
+            pass
+        ctx.stratum('rules: random tree over all rule categories')
     bad = [{'mark_heads_preset': 'tiger'}, {'mark_heads_preset': 'PTB'},
            {}, {'mark_heads_preset': 'negra', 'mark_heads_rulefile': 'x'},
            {'mark_heads_preset': ''}, {'mark_heads_preset': 1}]
@@ -399,7 +424,12 @@ def shard(ctx):
 
 def replay(ctx, case):
     install(ctx.R)
-    if case['kind'] == 'negra':
+    if case['kind'] == 'generic':
+        Cur.ctx, Cur.case = ctx, case
+        live = common.live_tree(ctx, case['spec'], ctx.rng('replay'))
+        ctx.R.transform.mark_heads_by_rules(live,
+                                            mark_heads_preset=case['preset'])
+    elif case['kind'] == 'negra':
         run_negra(ctx, case['spec'], ctx.rng('replay'),
                   stale=case.get('stale', False), twice=case.get('twice'))
     else:
